@@ -3,6 +3,7 @@ Each entry names a function (and its closures), the kind of fact, and the normal
   reject   a comparison whose edge leads to an error return (reconstructed as in R-LIMIT);
   compare  a comparison that decides a branch (either outcome) - used for `skip when empty` / `mirror at the edge` guards;
   calls    a call to the named function from the family (a conversion or a query the repair depends on);
+  calls-own  the same, but only in the named function and its closures (for a callee the function's own helpers call as well);
   guarded  `callee <= cmp:<text>` / `callee <= call:<fn>`: every call of `callee` in the family is dominated by a branch on that comparison
            (either polarity) / on the result of a call to <fn>;
   reads    the family reads the named struct field.
@@ -47,6 +48,11 @@ TABLE = [
      "a CMYK profile needs a black extra channel"),
     (("C06",), "jxl_render::util::image_region_to_frame", "reads", "save_before_ct", "D42",
      "a regular frame saved for reference before the colour transform can be a patch source and is rendered in full, like a reference-only frame"),
+    (("C01", "C06"), "jxl_render::image::ImageWithRegion::upsample_nonseparable", "calls-own", "region::Region::upsample", "D45",
+     "after upsampling an extra channel to the colour resolution only (frames with patches) its region is brought back to full-resolution "
+     "coordinates, the convention of regions_and_shifts()"),
+    (("C06",), "jxl_render::util::pad_upsampling", "calls", "FrameFlags::patches", "D46",
+     "with patches, extra channels are upsampled in two stages: the padding counts the passes of both"),
     (("C01", "C03"), "jxl_modular::ma::MaTreeNode::try_compile_to_table", "compare", "value > ret:end", "D39",
      "a decision whose threshold lies above the node's range is redundant: only the right child is reachable"),
     (("C01", "C03"), "jxl_modular::ma::MaTreeNode::try_compile_to_table", "compare", "(value+1) < ret:start", "D39",
@@ -175,6 +181,9 @@ def run(ctx, pid):
                 ctx.bad(rid, key + "|missing", "the guard that repaired %s is gone from %s: a call of %s is not dominated by a branch on `%s`: %s"
                         % (defect, prefix, target, guard, why), fn=fam[0])
             continue
+        if kind == "calls-own":
+            fam = [f for f in fam if f.path.startswith(prefix)]
+            kind = "calls"
         for f in fam:
             if (f.path, kind) not in cache:
                 if kind == "reject":
